@@ -212,6 +212,7 @@ func genRandomCase(r *lib.RNG, height, nKeys, nOps int, markers bool) *TrieCase 
 		c.Owner = lib.Pick(r, []string{"1", "2", randBits(r, 250).Text(16)})
 	}
 	pool := genKeyPool(r, height, nKeys)
+	withGets := markers && r.Chance(1, 4)
 	present := map[string]bool{}
 	for i := 0; i < nOps; i++ {
 		k := lib.Pick(r, pool).Text(16)
@@ -228,6 +229,11 @@ func genRandomCase(r *lib.RNG, height, nKeys, nOps int, markers bool) *TrieCase 
 				c.Ops = append(c.Ops, TOp{Op: "hash"})
 			case 1:
 				c.Ops = append(c.Ops, TOp{Op: "commit"})
+			}
+			// a read on the writing object in a quarter of the histories (it resolves nodes: histories without
+			// reads keep the write-through-unresolved-node paths busy)
+			if withGets && r.Chance(1, 4) {
+				c.Ops = append(c.Ops, TOp{Op: "get", K: lib.Pick(r, pool).Text(16)})
 			}
 		}
 	}
@@ -246,8 +252,10 @@ type trieOutcome struct {
 	lobs   []int
 	blines []string
 	bobs   []int
+	bdumps []int
 	zlines []string
 	zobs   []int
+	zgets  []int
 }
 
 func checkTrieCases(f lib.Flags, res *lib.Result, drv *lib.Driver, cases []*TrieCase, family string) {
@@ -294,9 +302,9 @@ func checkTrieCases(f lib.Flags, res *lib.Result, drv *lib.Driver, cases []*Trie
 			o.llines = append(o.llines, line)
 		}
 		all = append(all, o.llines...)
-		o.blines, o.bobs = lazyModelLines(o.c, 0)
+		o.blines, o.bobs, o.bdumps = lazyModelLines(o.c, 0)
 		all = append(all, o.blines...)
-		o.zlines, o.zobs = restartModelLines(o.c, 0)
+		o.zlines, o.zobs, o.zgets = restartModelLines(o.c, 0)
 		all = append(all, o.zlines...)
 	}
 	var answers []string
@@ -450,6 +458,19 @@ func evalTrieOutcome(res *lib.Result, o *trieOutcome, answers []string, off int,
 			ci++
 		}
 	}
+	// the whole node database after every Commit: model disk vs the key/value content of the real store
+	for j, idx := range o.bdumps {
+		if j >= len(o.t2.Disks) {
+			break
+		}
+		res.Compared(1)
+		model := strings.Fields(answers[boff+idx])
+		if d := compareSet(model, o.t2.Disks[j]); d != "" {
+			res.Mismatch(lib.Mismatch{Sig: "trie2-node-database-after-commit", Input: c, Model: fmt.Sprintf("after commit %d: %s", j, d)})
+			break
+		}
+		res.HitN("store-diff:node-database-entries-compared", len(model))
+	}
 	// restart model (unresolved nodes carry their subtree)
 	zoff := boff + len(o.blines)
 	for j, idx := range o.zobs {
@@ -460,6 +481,18 @@ func evalTrieOutcome(res *lib.Result, o *trieOutcome, answers []string, off int,
 			res.Mismatch(lib.Mismatch{Sig: "trie2-restart-model-root", Input: c, Model: clip(ans), Impl: impl})
 			break
 		}
+	}
+	for j, idx := range o.zgets {
+		if j >= len(o.t2.Gets) {
+			break
+		}
+		res.Compared(1)
+		v, err := evalTerm(answers[zoff+idx])
+		if err != nil || feltHex(&v) != o.t2.Gets[j] {
+			res.Mismatch(lib.Mismatch{Sig: "trie2-restart-model-get", Input: c, Model: clip(answers[zoff+idx]), Impl: o.t2.Gets[j]})
+			break
+		}
+		res.Hit("op:get-on-writing-object")
 	}
 	// same for the legacy trie model
 	loff := off + len(o.lines)
@@ -605,12 +638,41 @@ func main() {
 				c.Ops = append(c.Ops, op)
 			}
 			c.Ops = append(c.Ops, TOp{Op: "commit"})
+			if i%4 == 1 {
+				// a SECOND large batch on the reopened trie: > 100 overwrites / deletions / re-insertions of old
+				// keys and some new ones (parallel hashing through unresolved nodes, parallel collection with
+				// pending deletions), Commit + reopen, a few more writes
+				n1 := len(c.Ops)
+				for j, m := 0, rr.Range(110, 180); j < m; j++ {
+					k := c.Ops[rr.Intn(n1)].K
+					if k == "" || rr.Chance(1, 6) {
+						k = randBits(rr, 251).Text(16)
+					}
+					v := genVal(rr)
+					if rr.Chance(1, 3) {
+						v = "0"
+					}
+					c.Ops = append(c.Ops, TOp{Op: "put", K: k, V: v})
+				}
+				c.Ops = append(c.Ops, TOp{Op: "commit"})
+				for j := 0; j < 4; j++ {
+					c.Ops = append(c.Ops, TOp{Op: "put", K: c.Ops[rr.Intn(n1)].K + "", V: genVal(rr)})
+				}
+				for j := range c.Ops {
+					if c.Ops[j].Op == "put" && c.Ops[j].K == "" {
+						c.Ops[j].K = "7"
+					}
+				}
+			}
 		}
 		cs = append(cs, c)
 	}
 	checkTrieCases(f, res, drv, cs, "large-batch")
 
 	checkTempTries(f, res, drv, r)
+	checkBlockCommitments(f, res, drv, r.Fork(6_000_000))
+	checkVersions(f, res, drv, r.Fork(7_000_000))
+	checkPointerReuse(f, res, drv, r.Fork(8_000_000))
 	probeLeads(res)
 
 	// 5. state-diff sequences through core/state and core/deprecatedstate
@@ -618,6 +680,13 @@ func main() {
 	res.Note("deprecatedstate purges emptied system contracts in Update: %v (selects the Lean model variant)", legacyPurgeVariant)
 	oldFixedVariant = [2]bool{oldRootFixed(true), oldRootFixed(false)}
 	res.Note("Update accepts the stored old root at the commitment-formula switch: core/state %v, core/deprecatedstate %v (selects the Lean model variant)", oldFixedVariant[0], oldFixedVariant[1])
+	finaliseFixedVariant = [2]bool{finaliseKeepsOldRoot(true), finaliseKeepsOldRoot(false)}
+	res.Note("updateStateRoots keeps the caller's OldRoot: new state %v, deprecated state %v (selects the variant of the chain model)", finaliseFixedVariant[0], finaliseFixedVariant[1])
+	for v := range finaliseFixedVariant {
+		if finaliseFixedVariant[v] != oldFixedVariant[v] {
+			res.Fatalf("the tree under test has the repaired old-root check in only one of Update / updateStateRoots (backend %d): the chain model has no such variant", v)
+		}
+	}
 	checkStateCases(f, res, drv, directedStateCases(), "state-directed")
 	checkStateCases(f, res, drv, versionSwitchCases(), "state-version-switch")
 	checkInvalidDiffs(f, res, drv, genInvalidCases(r.Fork(5_000_000), f.Scale(60, 1200)))
@@ -627,11 +696,17 @@ func main() {
 		scs = append(scs, genStateCase(rr, rr.Range(1, 6)))
 	}
 	checkStateCases(f, res, drv, scs, "state-random")
+	checkSplitMerged(f, res, drv, scs[:min(len(scs), f.Scale(110, 600))])
 	scs = nil
 	for i := 0; i < f.Scale(3, 30); i++ {
 		scs = append(scs, genLargeStateCase(r.Fork(uint64(4_000_000+i))))
 	}
 	checkStateCases(f, res, drv, scs, "state-large-diff")
+	scs = nil
+	for i := 0; i < f.Scale(2, 20); i++ {
+		scs = append(scs, genManyContractsCase(r.Fork(uint64(9_000_000+i))))
+	}
+	checkStateCases(f, res, drv, scs, "state-many-contracts")
 	lib.Finish(f, res)
 }
 
@@ -658,9 +733,26 @@ func runReplay(f lib.Flags, res *lib.Result, drv *lib.Driver) {
 		}
 		legacyPurgeVariant = legacyPurges()
 		oldFixedVariant = [2]bool{oldRootFixed(true), oldRootFixed(false)}
+		finaliseFixedVariant = [2]bool{finaliseKeepsOldRoot(true), finaliseKeepsOldRoot(false)}
 		checkStateCases(f, res, drv, []*StateCase{&sc}, "replay")
 	case "primitive":
 		checkPrimitives(f, res, lib.NewRNG(f.Seed))
+	case "splitmerged":
+		var sc StateCase
+		if err := json.Unmarshal(body.State, &sc); err != nil {
+			res.Fatalf("replay: %v", err)
+			return
+		}
+		legacyPurgeVariant = legacyPurges()
+		oldFixedVariant = [2]bool{oldRootFixed(true), oldRootFixed(false)}
+		finaliseFixedVariant = [2]bool{finaliseKeepsOldRoot(true), finaliseKeepsOldRoot(false)}
+		checkSplitMerged(f, res, drv, []*StateCase{&sc})
+	case "ptr":
+		checkPointerReuse(f, res, drv, lib.NewRNG(f.Seed).Fork(8_000_000))
+	case "version":
+		checkVersions(f, res, drv, lib.NewRNG(f.Seed).Fork(7_000_000))
+	case "blockcomm":
+		checkBlockCommitments(f, res, drv, lib.NewRNG(f.Seed).Fork(6_000_000))
 	case "temptrie":
 		var n int
 		_ = json.Unmarshal(body.State, &n)
